@@ -8,6 +8,13 @@ ROOT = os.path.dirname(os.path.dirname(os.path.abspath(__file__)))
 
 CHECKS = {
     # id: (category, technique, text, note, design_ref)
+    "C01": (
+        "model_checking",
+        "exhaustive enumeration of a finite configuration space executed on the real library: sub-assemblies of lattice cells x 24 corner numberings x chop placements {none,2,3}^(3k), edge-family union-find reference model, independent reader of the written dictionary",
+        "All 1/2-cell assemblies of a 2x2x2 lattice with every chop placement and numbering (quick: 5 numberings in full, all 24 on 2-chop placements), 3-cell assemblies of 3x2x1 and 2x2x2 lattices (thorough: + 4 cells) with bounded placement weight: success => shared edges carry one count in the written file and each direction its family count; conflict => InconsistentGradingsError; consistent => no error.",
+        "Trusted: foamdict reader, blockMesh hex edge convention (mc/blockmesh_ref.py), union-find family model. Unit-cube cells, <=4 blocks, insertion order = cell order.",
+        "DESIGN.md 5 C01",
+    ),
     "C02": (
         "model_checking",
         "stateless model checking of the implementation: choice-point explorer over set iteration orders (iterative deviation bounding) x exhaustive insertion orders / corner numberings / chop placements of small lattice assemblies, edge-family reference model",
